@@ -24,6 +24,7 @@ func main() {
 	out := flag.String("out", "", "write result JSON here")
 	qlog := flag.String("qlog", "", "log deciding queries")
 	fallback := flag.String("fallback", "", "second solver for queries the first answers unknown")
+	replayFile := flag.String("replay", "", "run the harness once, concretely, on the intrinsic values of this replay file and print the observations")
 	maxSteps := flag.Int64("maxsteps", 0, "instruction limit per path")
 	intMode := flag.Bool("int", false, "integer encoding instead of bit-vectors")
 	funcs := flag.Bool("funcs", false, "include names of executed repo functions in the result")
@@ -44,11 +45,55 @@ func main() {
 	if *concrete {
 		os.Exit(sym.RunConcrete(p, *fn))
 	}
-	st, err := sym.Explore(p, sym.Config{Harness: *fn, Workers: *workers, SolverKind: *solver,
+	var rp []sym.ReplayItem
+	if *replayFile != "" {
+		b, err := os.ReadFile(*replayFile)
+		if err != nil {
+			fmt.Fprintln(os.Stderr, err)
+			os.Exit(2)
+		}
+		var rf struct {
+			Harness string            `json:"harness"`
+			Params  map[string]int    `json:"params"`
+			Items   []sym.ReplayItem  `json:"items"`
+		}
+		if err := json.Unmarshal(b, &rf); err != nil {
+			fmt.Fprintln(os.Stderr, err)
+			os.Exit(2)
+		}
+		rp = rf.Items
+		if rp == nil {
+			rp = []sym.ReplayItem{}
+		}
+		*fn = rf.Harness
+		for k, v := range rf.Params {
+			pm[k] = v
+		}
+		*workers = 1
+	}
+	st, err := sym.Explore(p, sym.Config{Replay: rp, Harness: *fn, Workers: *workers, SolverKind: *solver,
 		TimeoutMS: *timeout, MaxPaths: *maxPaths, QueryLog: *qlog, Params: pm, IntMode: *intMode, Fallback: *fallback, MaxSteps: *maxSteps})
 	if err != nil {
 		fmt.Fprintln(os.Stderr, "explore:", err)
 		os.Exit(2)
+	}
+	if rp != nil {
+		for _, l := range st.ReplayOut {
+			fmt.Println(l)
+		}
+		for _, v := range st.Violations {
+			if v.Label == "panic" {
+				fmt.Println("VPANIC")
+			} else {
+				fmt.Println("VFAIL " + v.Label)
+			}
+		}
+		if len(st.EngineErrors) > 0 {
+			fmt.Println("VENGINE-ERROR " + st.EngineErrors[0])
+			os.Exit(2)
+		}
+		fmt.Println("VDONE")
+		return
 	}
 	sym.DumpStepProf()
 	sum := st.Summary()
